@@ -18,6 +18,7 @@ import re as _re
 import engine_ogp as E
 from conc import Eval, V, Diverge, Unbound
 from rules.c02 import hole_after, collect_scrutinees
+from mirutil import cname as cname_
 
 TI = 'naga::TypeInner::'
 KINDS = {'Struct': 'buffer', 'Array': 'buffer', 'Scalar': 'buffer', 'Vector': 'buffer', 'Matrix': 'buffer', 'Atomic': 'buffer', 'Image': 'texture', 'Sampler': 'sampler'}
@@ -96,13 +97,39 @@ def run(rep):
         return
     gs = stars[0]
     M = gs[1]
-    mparam = [p for p in f['params'] if 'BTreeMap' in p['ty']]
-    rep.check(M[0] == 'param' and not gs[4] and not gs[5] and any(p['pat']['name'] == M[2] for p in mparam), 'C04.groups-ordered-map', 'group-map', where,
-              f'per-group items are not generated from the ordered (BTreeMap) group map unfiltered (source {E.show(M, maxdepth=4)}, filters {len(gs[4])})',
-              ok_detail='for (group_no, group) in ordered map')
+    mparam = [p for p in f['params'] if 'BTreeMap' in p['ty'] and (M[0] != 'param' or p['pat'].get('name') == M[2])]
     ge = ('elem', gs[2], M)
-    G, GROUP = ('tf', ge, 0), ('tf', ge, 1)
-    BINDINGS = ('f', GROUP, 'bindings')
+    CARRIER = {'kind': 'map'}
+    if not mparam and M[0] == 'param':
+        # the groups handed out as a list of records in key order (`map.into_iter().map(|(k, v)| Record { group_no: k, bindings: v }).collect()`):
+        # established on the resolved MIR of the group-data function (rules.c11.ordered_records_of); which field holds the key / the list comes from there
+        try:
+            from rules import c11 as _c11
+            from engine_mir import Mir as _Mir
+            _mir = _Mir()
+            for _n, _b in sorted(_mir.bodies.items()):
+                if _b.kind == 'Closure' or not _c11.agg_sites(_b, 'CreateModuleError::DuplicateBinding') and not any(cname_(t_) in _mir.bodies and _c11.agg_sites(_mir.bodies[cname_(t_)], 'CreateModuleError::DuplicateBinding') for _, t_ in _b.calls()):
+                    continue
+                for _bb, _st in _c11.agg_sites(_b, 'std::result::Result::Ok'):
+                    if _st['lhs']['l'] == 0 and _st['rv']['ops'] and _c11.op_place(_st['rv']['ops'][0]):
+                        _r = _c11.canon(_b, _c11.op_place(_st['rv']['ops'][0]))
+                        _conv = _c11.ordered_records_of(_mir, _b, _r[0])
+                        if _conv:
+                            CARRIER = _conv
+        except Exception as _ex:
+            rep.info['carrier_detection_error'] = repr(_ex)
+    if CARRIER['kind'] == 'map':
+        rep.check(M[0] == 'param' and not gs[4] and not gs[5] and any(p['pat']['name'] == M[2] for p in mparam), 'C04.groups-ordered-map', 'group-map', where,
+                  f'per-group items are not generated from the ordered (BTreeMap) group map unfiltered (source {E.show(M, maxdepth=4)}, filters {len(gs[4])})',
+                  ok_detail='for (group_no, group) in ordered map')
+        G, GROUP = ('tf', ge, 0), ('tf', ge, 1)
+        BINDINGS = ('f', GROUP, 'bindings')
+    else:
+        rep.check(M[0] == 'param' and not gs[4] and not gs[5], 'C04.groups-ordered-map', 'group-map', where,
+                  f'per-group items are not generated from the list of group records unfiltered (source {E.show(M, maxdepth=4)}, filters {len(gs[4])})',
+                  ok_detail=f'for group in records collected from the ordered map in key order (key in `{CARRIER["group_field"]}`, list in `{CARRIER["bindings_field"]}`)')
+        G, GROUP = ('f', ge, CARRIER['group_field']), ge
+        BINDINGS = ('f', ge, CARRIER['bindings_field'])
     # field roles of the collected-binding record by provenance (which field was filled from `.binding`, which from module.types[..]), not by name
     from roles import binding_roles
     ROLES, _rec = binding_roles(ogp)
@@ -260,12 +287,14 @@ def run(rep):
                 rep.bad('C04.R5', f'{label}-repetition', where, f'no repetition produces {label}', undecided=True)
                 return None
             s = ss[0]
-            ok = s[1] in (KEYS, M) and not s[4] and not s[5]
+            ok = (s[1] in (KEYS, M) if CARRIER['kind'] == 'map' else s[1] == M) and not s[4] and not s[5]
             rep.check(ok, 'C04.R5.all-groups', f'{label}-source', where, f'{label} are generated from {E.show(s[1], maxdepth=4)} with {len(s[4])} filter(s); expected every key of the group map', ok_detail='for group_no in map.keys()')
             return s
         fs = key_star(lambda t: E.tmpl_text(t).startswith('pub #') and "&'a #" in E.tmpl_text(t), 'BindGroups-fields')
         def key_of(s_):
             e_ = ('elem', s_[2], s_[1])
+            if CARRIER['kind'] != 'map':
+                return ('f', e_, CARRIER['group_field'])
             return ('tf', e_, 0) if s_[1] == M else e_
         if fs is not None:
             k = key_of(fs)
@@ -325,14 +354,16 @@ def run(rep):
         gstars = []
         E.walk(top, lambda x: gstars.append(x) if x[0] == 'star' and E.find_templates(x[3], lambda y: '( wgpu :: BindGroup ) ;' in E.tmpl_text(y)) else None)
         Mtop = gstars[0][1] if gstars else None
-        ok = s[1] == ('mcall', Mtop, 'keys', []) and not s[4] and not s[5]
+        ok = (s[1] == ('mcall', Mtop, 'keys', []) if CARRIER['kind'] == 'map' else s[1] == Mtop) and not s[4] and not s[5]
         rep.check(ok, 'C04.R7.pipeline-layout', f'layout-order:{tq}', twhere,
                   f'the pipeline layout is generated from {E.show(s[1], maxdepth=5)} with {len(s[4])} filter(s); expected every key of the same ordered group map in key order',
                   ok_detail='for group_no in group_map.keys()')
-        k = ('elem', s[2], s[1])
+        k = ('elem', s[2], s[1]) if CARRIER['kind'] == 'map' else ('f', ('elem', s[2], s[1]), CARRIER['group_field'])
         t = E.find_templates(s[3], lambda t: True)[0]
         hv = [ident_fmt(x) for x in E.holes(t).values()]
         want_el = ('' if amp_outer else '& ') + 'bind_groups :: #' + list(E.holes(t))[0] + ' :: get_bind_group_layout ( device )'
+        if CARRIER['kind'] != 'map' and s[1][0] == 'new' and 'BTreeMap' in str(s[1][1]):
+            k = ('tf', ('elem', s[2], s[1]), 0)      # the conversion to records is inlined here: both repetitions range over the ordered map itself
         rep.check(hv == [('BindGroup', k)] and E.tmpl_text(t) == want_el, 'C04.R7.pipeline-layout', f'layout-element:{tq}', twhere,
                   f'layout element is `{E.tmpl_text(t)}` {hv}', ok_detail='bind_groups::BindGroup<K>::get_bind_group_layout(device)')
     rep.floor('pipeline layout template', n7, 1)
